@@ -228,7 +228,20 @@ fn write_tree(rng: &mut Rng, scratch: &Path, case: u64, split: &Split) -> Writte
         text.push('\n');
         let full = root.join(&p.rel);
         std::fs::create_dir_all(full.parent().unwrap()).unwrap();
-        std::fs::write(&full, &text).unwrap();
+        // include files go through the same encoding detection as the main file: a fifth of them is
+        // written in another encoding (BOM-less UTF-16/32 needs an ASCII first character, which an
+        // include file that starts with a comment or a string may not have: those get a BOM)
+        if p.rel != "main.a2l" && rng.chance(1, 5) && !text.is_empty() {
+            let mut enc = *rng.pick(&crate::c17::ENCODINGS);
+            let first_ascii = text.chars().next().is_some_and(|c| c.is_ascii() && c != '\0');
+            let second_ok = text.chars().nth(1).map_or(true, |c| c.is_ascii());
+            if !(first_ascii && second_ok) && !enc.ends_with("-bom") && enc != "utf8" {
+                enc = "utf8-bom";
+            }
+            std::fs::write(&full, crate::c17::encode(&text, enc)).unwrap();
+        } else {
+            std::fs::write(&full, &text).unwrap();
+        }
         texts.push((p.rel.clone(), text));
     }
     // flattened text: textual substitution of every include directive by the file content
